@@ -39,12 +39,13 @@ def build_module(e, o5, t, o3, rng, backbone=8):
     return None
 
 
-def build_vector(e, vstart, vend, rng, placeholder=6, backbone=10):
+def build_vector(e, vstart, vend, rng, placeholder=6, backbone=10, first=None, last=None):
     """N . vend . N^a . rc(site) . placeholder . site . N^a . vstart . N . backbone
-    kept fragment (target) = vstart . N . backbone . N  (the stretch from the second cut round to the first)"""
+    kept fragment (target) = vstart . N . backbone . N  (the stretch from the second cut round to the first);
+    first / last: the letter right after vstart / the last letter of the kept fragment (right before vend)"""
     site, a, k = enzyme_geometry(e)
     for _ in range(1500):
-        n1, n2 = clean(rng, 1, e), clean(rng, 1, e)
+        n1, n2 = last or clean(rng, 1, e), first or clean(rng, 1, e)
         bb = clean(rng, backbone, e)
         s = n1 + vend + clean(rng, a, e) + gen.rc(site) + clean(rng, placeholder, e) + site + clean(rng, a, e) + vstart + n2 + bb
         if count_sites(s, e) == (1, 1):
